@@ -469,8 +469,8 @@ impl StrCompat for bumpalo::collections::String<'static> {
 }
 
 /// (group, |a|, |b|)
-const FW_GROUPS: [(u8, u8, u8); 9] = [(0, 5, 5), (1, 6, 6), (2, 6, 6), (3, 5, 5), (4, 14, 1), (5, 6, 6), (6, 4, 1), (7, 3, 1), (8, 2, 1)];
-const FW_NAMES: [&str; 9] = ["u64 pair: compare/hash/format", "f64 pair: partial compare/format", "str pair: compare/hash/format", "[u8] pair: compare/hash/format", "Hasher write_* forwarding", "Iterator method pairs", "Borrow/AsRef/AsMut/Deref/Pointer", "Future polling", "Default for Box<[T]> / Box<str>"];
+const FW_GROUPS: [(u8, u8, u8); 10] = [(0, 5, 5), (1, 6, 6), (2, 6, 6), (3, 5, 5), (4, 14, 1), (5, 6, 6), (6, 4, 1), (7, 3, 1), (8, 2, 1), (9, 6, 1)];
+const FW_NAMES: [&str; 10] = ["u64 pair: compare/hash/format", "f64 pair: partial compare/format", "str pair: compare/hash/format", "[u8] pair: compare/hash/format", "Hasher write_* forwarding", "Iterator method pairs", "Borrow/AsRef/AsMut/Deref/Pointer", "Future polling", "Default for Box<[T]> / Box<str>", "from_iter_in at scale"];
 const FW_U64: [u64; 5] = [0, 5, 7, 255, u64::MAX];
 const FW_F64: [f64; 6] = [f64::NAN, -0.0, 0.0, 1.5, -2.25, f64::INFINITY];
 const FW_STR: [&str; 6] = ["", "a", "ab", "b", "é€", "a\n\"q"];
@@ -573,7 +573,7 @@ macro_rules! hash_fwd {
 
 /// One forwarding case in one world. `$mk` boxes a sized value, `$mks`/`$mkb` box a str / byte slice.
 macro_rules! forwarding {
-    ($out:expr, $g:expr, $a:expr, $b:expr, bx = $bx:ident, mk = $mk:expr, pin = $pin:expr, mk_str = $mks:expr, mk_bytes = $mkb:expr, dynhash = $dh:expr, dynfut = $df:expr) => {{
+    ($out:expr, $g:expr, $a:expr, $b:expr, bx = $bx:ident, mk = $mk:expr, pin = $pin:expr, many_u64 = $mu64:expr, many_big = $mbig:expr, many_u8 = $mu8:expr, mk_str = $mks:expr, mk_bytes = $mkb:expr, dynhash = $dh:expr, dynfut = $df:expr) => {{
         let out: &mut Vec<String> = $out;
         let (ai, bi) = ($a as usize, $b as usize);
         match $g {
@@ -673,6 +673,29 @@ macro_rules! forwarding {
                 }
                 out.push(format!("borrow{} {} as_ref{} {} after{} pointer_is_value_address{} pfmt{}", b1v, b1a, r1v, r1a, *x, p == format!("{:p}", addr as *const u64), format!("{:18p}", x).len()));
             }
+            9 => {
+                // boxed slices built from long iterators: several pages of elements, elements of 1 KiB
+                match ai {
+                    0 | 1 | 2 => {
+                        let n = [512u64, 513, 5000][ai];
+                        let x = $mu64(n, true);
+                        let y = $mu64(n, false);
+                        let _g = Callback::enter();
+                        out.push(format!("len{} {} sum{} {} last{:?} {:?}", x.len(), y.len(), x.iter().fold(0u64, |a, v| a.wrapping_mul(31).wrapping_add(*v)), y.iter().fold(0u64, |a, v| a.wrapping_mul(31).wrapping_add(*v)), x.last(), y.last()));
+                    }
+                    3 | 4 => {
+                        let n = [4usize, 9][ai - 3];
+                        let x = $mbig(n);
+                        let _g = Callback::enter();
+                        out.push(format!("len{} firsts{:?}", x.len(), x.iter().map(|e| e[0] as u32 + e[1023] as u32).collect::<Vec<_>>()));
+                    }
+                    _ => {
+                        let x = $mu8(10_000);
+                        let _g = Callback::enter();
+                        out.push(format!("len{} sum{}", x.len(), x.iter().fold(0u64, |a, v| a.wrapping_mul(31).wrapping_add(*v as u64))));
+                    }
+                }
+            }
             8 => {
                 let _g = Callback::enter();
                 if ai == 0 {
@@ -708,6 +731,9 @@ fn run_forwarding(envp: *mut ExecEnv, g: u8, a: u8, b: u16, v: &mut Vec<Violatio
         let o = &mut o0;
         arena_op(envp, 1, 0, &[], || {
             forwarding!(o, g, a, b, bx = BBoxT, mk = |x| BBox::new_in(x, bref), pin = |x| BBox::pin_in(x, bref),
+                many_u64 = |n: u64, exact: bool| -> BBox<'static, [u64]> { if exact { BBox::from_iter_in((0..n).map(|i| i * 3 + 1), bref) } else { BBox::from_iter_in((0..n).filter(|i| i % 7 != 6).map(|i| i * 3 + 1), bref) } },
+                many_big = |n: usize| -> BBox<'static, [[u8; 1024]]> { use bumpalo::collections::CollectIn; (0..n).map(|i| [i as u8; 1024]).collect_in::<BBox<'static, [[u8; 1024]]>>(bref) },
+                many_u8 = |n: usize| -> BBox<'static, [u8]> { BBox::from_iter_in((0..n).map(|i| (i % 251) as u8), bref) },
                 mk_str = |s: &str| -> BBox<'static, str> { let r: &'static mut str = bumpalo::collections::String::from_str_in(s, bref).into_bump_str_mut_compat(); unsafe { BBox::from_raw(r as *mut str) } },
                 mk_bytes = |s: &[u8]| -> BBox<'static, [u8]> { BBox::from_iter_in(s.iter().copied(), bref) },
                 dynhash = |h: RecHasher| -> BBox<'static, dyn Hasher> { let x = BBox::new_in(h, bref); unsafe { BBox::from_raw(BBox::into_raw(x) as *mut dyn Hasher) } },
@@ -719,6 +745,9 @@ fn run_forwarding(envp: *mut ExecEnv, g: u8, a: u8, b: u16, v: &mut Vec<Violatio
         let _g = Callback::enter();
         crate::util::quiet(|| catch_unwind(AssertUnwindSafe(|| {
             forwarding!(o, g, a, b, bx = StdBoxT, mk = |x| Box::new(x), pin = |x| Box::pin(x),
+                many_u64 = |n: u64, exact: bool| -> Box<[u64]> { if exact { (0..n).map(|i| i * 3 + 1).collect() } else { (0..n).filter(|i| i % 7 != 6).map(|i| i * 3 + 1).collect() } },
+                many_big = |n: usize| -> Box<[[u8; 1024]]> { (0..n).map(|i| [i as u8; 1024]).collect() },
+                many_u8 = |n: usize| -> Box<[u8]> { (0..n).map(|i| (i % 251) as u8).collect() },
                 mk_str = |s: &str| -> Box<str> { String::from(s).into_boxed_str() },
                 mk_bytes = |s: &[u8]| -> Box<[u8]> { s.to_vec().into_boxed_slice() },
                 dynhash = |h: RecHasher| -> Box<dyn Hasher> { Box::new(h) },
